@@ -740,6 +740,28 @@ func (g *gen) c12bigZiplist() string {
 			es[i] = c12ZlEntry{head: "i4", v: int64(g.r.Intn(13))}
 		}
 	}
+	// a few entries of every other shape among them: strings long enough (encoded size >= 254) for the NEXT entry to carry the
+	// 5-byte form of the previous-entry length, the 5-byte form in front of a short predecessor, every integer width
+	for k := g.r.Intn(9); k > 0; k-- {
+		i := g.r.Intn(n)
+		if t == 12 && i%2 == 1 {
+			i--
+		}
+		switch g.r.Intn(7) {
+		case 0, 1:
+			es[i] = c12ZlEntry{head: "s14", s: g.bytes(251 + g.r.Intn(200))}
+		case 2:
+			es[i] = c12ZlEntry{head: "s32", s: g.bytes(g.r.Intn(70))}
+		case 3:
+			es[i].big = true
+		case 4:
+			es[i] = c12ZlEntry{head: []string{"i8", "i16", "i24", "i32", "i64"}[g.r.Intn(5)], v: int64(g.r.Intn(100)) - 50}
+		case 5:
+			es[i] = c12ZlEntry{head: "s6", s: g.bytes(g.r.Intn(64))}
+		default:
+			es[i] = c12ZlEntry{head: "s14", s: g.bytes(64 + g.r.Intn(190))}
+		}
+	}
 	blob := serZiplist12(es)
 	return fmt.Sprintf("cmp %d %s %s", t, genWrap12(g.r, blob, false), c12EntriesText(es))
 }
